@@ -295,8 +295,19 @@ for line in sys.stdin:
     t = json.loads(line)
     res = []
     try:
-        g = Generator(protocol=t["protocol"], seed=t["seed"])
-        m = PickleMutator(protocol=t["protocol"], seed=t["seed"])
+        how = t.get("ctor", "kw")
+        if how == "kw":
+            g = Generator(protocol=t["protocol"], seed=t["seed"])
+            m = PickleMutator(protocol=t["protocol"], seed=t["seed"])
+        elif how == "pos":
+            g = Generator(t["protocol"], t["seed"])
+            m = PickleMutator(t["protocol"], t["seed"])
+        elif how == "default-protocol":      # documented default: protocol 3
+            g = Generator(seed=t["seed"])
+            m = PickleMutator(seed=t["seed"])
+        else:                                # no seed: only the fuzzer-bytes calls are reproducible
+            g = Generator(protocol=t["protocol"])
+            m = PickleMutator(protocol=t["protocol"])
         for st in t["steps"]:
             try:
                 if st[0] == "range": g.set_opcode_range(st[1], st[2])
@@ -344,6 +355,12 @@ def run_python_scripts(pkg, n, rnd, out):
             t["steps"] = [["mut", d, lim] for lim in (0, 1, 2, 100, 342, big)]
         else:             # alternating inputs
             t["steps"] = [["mut", d, big], ["mut", d2, big], ["mut", d, big], ["genb", d2], ["genb", d]]
+        # how the objects are constructed: keywords, positional, protocol omitted (default 3), seed omitted
+        t["ctor"] = ["kw", "pos", "default-protocol", "no-seed"][(k // 8) % 4] if k >= 8 else "kw"
+        if t["ctor"] == "default-protocol":
+            t["protocol"] = 3
+        if t["ctor"] == "no-seed":
+            t["steps"] = [st for st in t["steps"] if st[0] != "gen"]
         tests.append(t)
     rc, so, se = sh([sys.executable, "-c", PYSCRIPT, pkg], inp="\n".join(json.dumps(t) for t in tests).encode())
     lines = so.decode().strip().split("\n") if so.strip() else []
@@ -387,7 +404,7 @@ def main():
         if "python" in kinds:
             pkg = build_py()
             run_python(pkg, n, rnd, out)
-            run_python_scripts(pkg, max(8, n // 2), rnd, out)
+            run_python_scripts(pkg, max(32, n), rnd, out)
     except RuntimeError as e:
         out.append("front build FAIL %s" % str(e).replace("\n", "|").replace(" ", "_")[:600])
     print("\n".join(out))
